@@ -508,6 +508,57 @@ def _():
         """                package.readme_content = root / readme["text"]""",
         """                package.readme_content = readme["text"]""")
 
+@fix("D43", "fix: a requirement whose project name merely ends like an archive (foo.zip, pkg.tar.gz) is a registry dependency, not a local file (was AttributeError)")
+def _():
+    sub("packages/dependency.py",
+        """            elif is_archive_file(p):
+                link = Link(path_to_url(p))""",
+        """            elif is_archive_file(p) and (os.path.sep in name or name.startswith(".")):
+                link = Link(path_to_url(p))""")
+
+@fix("D44", "fix: a wildcard after the dev segment of a pre- or post-release (==1.1b0.dev0.*) spans that dev release, not an empty improper range (AssertionError in a comma set)")
+def _():
+    sub("constraints/version/parser.py",
+        """    if version.is_postrelease():
+        _next = version.next_postrelease()
+    elif version.is_stable():
+        _next = version.next_stable()
+    elif version.is_prerelease():
+        _next = version.next_prerelease()
+    elif version.is_devrelease():
+        _next = version.next_devrelease()
+    else:""",
+        """    if version.is_devrelease():
+        _next = version.next_devrelease()
+    elif version.is_postrelease():
+        _next = version.next_postrelease()
+    elif version.is_stable():
+        _next = version.next_stable()
+    elif version.is_prerelease():
+        _next = version.next_prerelease()
+    else:""")
+
+@fix("D45", "fix: clauses on platform_release of different kinds (a version comparison and a substring / non-version test) are kept side by side instead of being merged (was AssertionError / AttributeError / ValueError)")
+def _():
+    sub("version/markers.py",
+        """    if marker1.name != marker2.name:
+        return None
+
+    if merge_class == MultiMarker:
+        merge_method = marker1.constraint.intersect""",
+        """    if marker1.name != marker2.name:
+        return None
+
+    if isinstance(marker1.constraint, VersionConstraint) != isinstance(
+        marker2.constraint, VersionConstraint
+    ):
+        # platform_release: a version constraint and a plain string constraint
+        # (a value that is not a version, a substring test) cannot be merged
+        return None
+
+    if merge_class == MultiMarker:
+        merge_method = marker1.constraint.intersect""")
+
 def main():
     id_ = sys.argv[1]
     msg, f = FIXES[id_]
